@@ -1,4 +1,13 @@
-"""C10 cases: parsing (from_str_radix, FromStr, parse_bytes, from_radix_be/le)."""
+"""C10 cases: parsing (from_str_radix, parse_str_radix, FromStr / str::parse, parse_bytes, from_radix_be/le).
+
+_gen_main     every radix x value classes around the limits, configurations up to 20 digits
+bad_radix     out-of-range radices (incl. ones whose `as u8` / `as $Digit` truncation is in range) x payloads
+              (empty, lone sign, invalid digit, overflow, non-ASCII, invalid UTF-8) for every entry point
+edge_strings  sign / zero / non-ASCII-digit corners of the grammar
+chunk_boundary_radices   digit-slice radices at which `radix_base`'s chunk size changes for the digit type
+length_sweep  every numeral length 1 .. capacity+2
+wide          n > 20 and the 8192-bit instantiation of every digit type: reduced set, every entry point, both arms
+"""
 from .common import *
 from . import widthsweep as _ws
 
@@ -97,7 +106,9 @@ def digits_case(rng, w, n, r):
     if c == 0:
         return "empty", []
     if c <= 3:
-        z = rng.choice([M - 1, M, M + 1, 0, 1, rng.randrange(M), rng.randrange(2 * M), (M + rng.randrange(9)) * r ** rng.randrange(0, 45) + rng.randrange(6)])
+        H = M >> 1
+        z = rng.choice([M - 1, M, M + 1, 0, 1, H - 1, H, H + 1, H + (1 << rng.randrange(W)), rng.randrange(M), rng.randrange(2 * M),
+                        (M + rng.randrange(9)) * r ** rng.randrange(0, 45) + rng.randrange(6)])
         ds = []
         while z:
             ds.append(z % r)
@@ -136,7 +147,7 @@ def _gen_main(rng, tier):
                 t, b = str_case(rng, w, n, s == "i", 10)
                 try:
                     b.decode()
-                    yield f"from_str {s}{cfg} {hexs(b)}", t
+                    yield f"{'str_parse' if rng.randrange(3) == 0 else 'from_str'} {s}{cfg} {hexs(b)}", t
                 except UnicodeDecodeError:
                     pass
             for r in list(range(2, 40)) + [64, 100, 128, 200, 255, 256]:
@@ -146,11 +157,284 @@ def _gen_main(rng, tier):
                     yield f"from_radix_be {s}{cfg} {r} {hexs(be)}", t
                     t, ds = digits_case(rng, w, n, r)
                     yield f"from_radix_le {s}{cfg} {r} {hexs(bytes(ds))}", t
-            for r in (0, 1, 37, 257, 1000):
-                yield f"from_str_radix {s}{cfg} {r} 31", "bad-radix"
-                yield f"parse_str_radix {s}{cfg} {r} 31", "bad-radix"
-                yield f"from_radix_be {s}{cfg} {r} 01", "bad-radix"
-                yield f"from_radix_le {s}{cfg} {r} 01", "bad-radix"
+            yield from bad_radix(rng, w, n, s, cfg, 4 * reps, 3 * reps)
+            yield from edge_strings(rng, s, cfg)
+            for r in chunk_boundary_radices(w):
+                for _ in range(reps):
+                    t, ds = digits_case(rng, w, n, r)
+                    yield f"from_radix_be {s}{cfg} {r} {hexs(bytes(reversed(ds)))}", t + "/chunk-radix"
+                    t, ds = digits_case(rng, w, n, r)
+                    yield f"from_radix_le {s}{cfg} {r} {hexs(bytes(ds))}", t + "/chunk-radix"
+
+
+# ---- out-of-range radix ------------------------------------------------------------------------------------------
+# every entry point asserts the range BEFORE looking at the input (so: panic also for the empty string, a lone sign,
+# an invalid digit, an overflowing numeral), except parse_bytes whose from_utf8 check comes first; the assert is on
+# the u32, not on `radix as u8` / `radix as $Digit` (258 = 256 + 2, 272 = 256 + 16, 65552 = 2^16 + 16, 2^32 - 240 ...
+# truncate to an in-range value).  64 / 100 / 255 / 256 are valid for the digit-slice API only.
+BAD_STR_RADIX = [0, 1, 37, 38, 64, 100, 255, 256, 257, 258, 260, 266, 272, 292, 512, 1000, 65536, 65538, 65546, 65552,
+                 (1 << 31), (1 << 32) - 254, (1 << 32) - 246, (1 << 32) - 240, (1 << 32) - 1]
+BAD_DIG_RADIX = [0, 1, 257, 258, 260, 266, 272, 512, 1000, 65536, 65538, 65546, 65552, (1 << 31), (1 << 32) - 254,
+                 (1 << 32) - 240, (1 << 32) - 1]
+BAD_UTF8 = [b"\xff", b"\xc3", b"1\xc3", b"\x80", b"\xc0\xb1", b"\xed\xa0\x80", b"\xf4\x90\x80\x80", b"12\xe2\x82", b"+\xff", b"-\xc1"]
+GOOD_UTF8_NONDIGIT = ["1\u00e9".encode(), "\uff11".encode(), "\u0663".encode(), "\U0001d7d9".encode(), b"\x00", b"1\x7f"]
+
+
+def bad_radix(rng, w, n, s, cfg, k_str, k_dig):
+    W = w * n
+    M = 1 << W
+    lim = M >> 1 if s == "i" else M
+
+    def payload():
+        c = rng.randrange(9)
+        if c == 0:
+            return b""
+        if c == 1:
+            return rng.choice([b"+", b"-"])
+        if c == 2:
+            return rng.choice([b"0", b"1", b"z", b"Z", b"10", b"-1", b"+1", b"00000"])
+        if c == 3:
+            return rng.choice([b" ", b"1 ", b" 1", b"_", b"--1", b"+-1", b"1.0", b"0x10"])
+        if c == 4:
+            return rng.choice(GOOD_UTF8_NONDIGIT)
+        if c == 5:
+            return str(rng.choice([lim - 1, lim, lim + 1, 10 * M])).encode()
+        if c == 6:
+            return (rng.choice(["", "-", "+"]) + numeral(rng.choice([lim - 1, lim, M, rng.randrange(M)]), rng.choice([2, 16, 36]))).encode()
+        return "".join(rng.choice(DIG) for _ in range(rng.choice([1, 2, 5, W // 4 + 1]))).encode()
+
+    for r in rng.sample(BAD_STR_RADIX, min(k_str, len(BAD_STR_RADIX))):
+        b = payload()
+        yield f"from_str_radix {s}{cfg} {r} {hexs(b)}", "bad-radix"
+        b = payload()
+        yield f"parse_str_radix {s}{cfg} {r} {hexs(b)}", "bad-radix"
+        # parse_bytes: valid UTF-8 (must panic like from_str_radix) ...
+        b = payload()
+        yield f"parse_bytes {s}{cfg} {r} {hexs(b)}", "bad-radix"
+        # ... and invalid UTF-8 (from_utf8 fails first: None)
+        b = rng.choice(BAD_UTF8) if rng.random() < 0.6 else payload() + rng.choice(BAD_UTF8) + payload()
+        yield f"parse_bytes {s}{cfg} {r} {hexs(b)}", "bad-radix-bad-utf8"
+    for r in rng.sample(BAD_DIG_RADIX, min(k_dig, len(BAD_DIG_RADIX))):
+        for op in ("from_radix_be", "from_radix_le"):
+            c = rng.randrange(6)
+            if c == 0:
+                b = b""
+            elif c == 1:
+                b = bytes([rng.choice([0, 1, 2, 255])])
+            elif c == 2:
+                b = bytes(rng.randrange(256) for _ in range(rng.choice([2, 3, W // 8, W // 8 + 1])))
+            elif c == 3:
+                b = bytes([0] * rng.choice([1, W // 8 + 2]))
+            elif c == 4:
+                b = bytes([r % 256, 1]) if rng.random() < 0.5 else bytes([1, (r - 1) % 256])
+            else:
+                b = bytes(rng.randrange(2) for _ in range(rng.choice([1, W, W + 1])))
+            yield f"{op} {s}{cfg} {r} {hexs(b)}", "bad-radix"
+
+
+def edge_strings(rng, s, cfg):
+    """tiny strings around the sign / zero / non-ASCII-digit grammar corners, a few radices each"""
+    corpus = [b"0", b"-0", b"+0", b"00", b"-00", b"+00", b"-", b"+", b"", b"+-0", b"-+0", b"--0", b"++0", b" 0", b"0 ", b"0\n",
+              b"0x1", b"1_0", b"1e1", b"1.", b"-1", b"+1", b"1-", b"1+", b"0-1", b"0+1", b"\x001", b"1\x00"] + GOOD_UTF8_NONDIGIT
+    for b in corpus:
+        r = rng.choice([2, 3, 4, 8, 10, 15, 16, 17, 32, 35, 36])
+        op = rng.choice(["from_str_radix", "from_str_radix", "parse_bytes", "parse_str_radix"])
+        yield f"{op} {s}{cfg} {r} {hexs(b)}", "edge-string"
+    for b in rng.sample(corpus, 6):
+        yield f"{rng.choice(['from_str', 'str_parse'])} {s}{cfg} {hexs(b)}", "edge-string"
+    for b in rng.sample(BAD_UTF8, 3):
+        yield f"parse_bytes {s}{cfg} {rng.choice([2, 10, 16, 36])} {hexs(b)}", "edge-string"
+
+
+def iroot(x, k):
+    lo, hi = 1, 1 << (x.bit_length() // k + 1)
+    while lo < hi:
+        mid = (lo + hi + 1) // 2
+        if mid ** k <= x:
+            lo = mid
+        else:
+            hi = mid - 1
+    return lo
+
+
+def chunk_boundary_radices(w):
+    """radices r (2..=256, outside the 2..39 block that is enumerated anyway) at which the chunk size changes for this
+    digit type: r^k <= 2^w - 1 < (r+1)^k  (`radix_base`), both sides of the boundary"""
+    out = set()
+    for k in range(1, w + 1):
+        r = iroot((1 << w) - 1, k)
+        for x in (r - 1, r, r + 1, r + 2):
+            if 40 <= x <= 256:
+                out.add(x)
+    return sorted(out)
+
+
+# ---- wide configurations (n > 20: 512 ... 8192 bits, every digit type, signed and unsigned) -------------------------
+# A reduced but complete set: every entry point x both arms (2/4/16 packing, general chunked accumulation) x the value
+# classes that decide accept / overflow / invalid, with few requests per configuration (an 8192-bit parse costs the
+# Lean model ~0.1-0.5 s).
+POW2_STR = [2, 4, 16]
+GEN_STR = [10, 36, 3, 7, 8, 32, 35, 5, 9, 11, 13, 27]
+POW2_DIG = [2, 4, 16]
+GEN_DIG = [10, 255, 100, 3, 36, 37, 8, 32, 64, 128, 200, 41, 85, 139, 254]
+
+
+def wide_cfgs(tier):
+    out = []
+    for c in [c for c in cfgs(tier) if wn(c)[1] > 20] + ["64x64"] + HUGE_CFGS:
+        if c not in out:
+            out.append(c)
+    return out
+
+
+def wide_str_case(rng, w, n, signed, r, c):
+    W = w * n
+    M = 1 << W
+    H = M >> 1
+    lim = H if signed else M
+    neg = signed and rng.random() < 0.5
+    sign = "-" if neg else rng.choice(["", "", "+"])
+    cap = len(numeral(lim - 1, r))
+    if c == "max":          # the largest accepted magnitude (negative: H itself is representable)
+        z = lim if neg else lim - 1
+        return "w-max", (sign + "0" * rng.choice([0, 0, 1, cap]) + numeral(z, r)).encode()
+    if c == "ovf1":         # overflow by one / by the low bit pattern that the sign test of BInt looks at
+        z = rng.choice([lim + 1, H + (1 << rng.randrange(W - 1)), M - 1, M, M + 1]) if neg else rng.choice([lim, lim + 1, M, M + 1] if signed else [M, M + 1])
+        return "w-ovf1", (sign + "0" * rng.choice([0, 0, 2]) + numeral(z, r)).encode()
+    if c == "lz":           # leading zeros take the digit count past the capacity
+        z = rng.choice([0, 1, lim - 1, rng.randrange(lim), rng.randrange(1 << rng.randrange(1, W))])
+        body = numeral(z, r)
+        ln = rng.choice([cap + 1, cap + 2, cap + cap // 3, 2 * cap])
+        return "w-lz", (sign + "0" * max(1, ln - len(body)) + body).encode()
+    if c == "invalid":      # one invalid byte in a numeral too short to overflow -> InvalidDigit exactly
+        ln = rng.choice([cap - 2, cap - 2, cap // 2, 3])
+        body = bytearray("".join(rng.choice(DIG[:r]) for _ in range(max(1, ln))).encode())
+        bad = rng.choice([b" ", b"_", b"-", b"+", b"/", b":", b"@", b"[", b"`", b"{", b"\x00", b"\x7f",
+                          DIG[r].encode() if r < 36 else b"~", DIG[min(35, r)].upper().encode() if r < 36 else b"!"])
+        pos = rng.choice([0, 0, 1, len(body) // 2, len(body) - 1])
+        body[pos:pos + 1] = bad
+        return "w-invalid", sign.encode() + bytes(body)
+    if c == "invalid-long":  # over-long malformed: never accepted (kind open)
+        body = bytearray(("0" * rng.choice([0, 3]) + numeral(rng.choice([M, M + 1, lim * r, rng.randrange(M) * r ** 5]), r)).encode())
+        pos = rng.choice([0, len(body) // 2, len(body) - 1, len(body)])
+        body[pos:pos] = rng.choice([b" ", b"-", b"\xc3\xa9", DIG[r].encode() if r < 36 else b"~"])
+        return "w-invalid-long", sign.encode() + bytes(body)
+    if c == "limit*r^j":
+        lim2 = rng.choice([M, H]) if signed else M
+        z = (lim2 + rng.randrange(0, 9)) * r ** rng.randrange(0, 45) + rng.randrange(0, 6)
+        return "w-limit*r^j", (sign + numeral(z, r)).encode()
+    # random digits of exactly / about the capacity length
+    ln = rng.choice([cap - 1, cap, cap])
+    body = rng.choice(DIG[1:r]) + "".join(rng.choice(DIG[:r]) for _ in range(ln - 1))
+    if rng.random() < 0.3:
+        body = "".join(ch.upper() if rng.random() < 0.5 else ch for ch in body)
+    return "w-random", (sign + body).encode()
+
+
+STR_CLASSES = ["max", "ovf1", "lz", "invalid", "invalid-long", "limit*r^j", "random"]
+
+
+def wide_digits_case(rng, w, n, r, c):
+    W = w * n
+    M = 1 << W
+    H = M >> 1
+
+    def digs(z):
+        ds = []
+        while z:
+            ds.append(z % r)
+            z //= r
+        return ds or [0]
+    cap = len(digs(M - 1))
+    if c == "max":
+        return "w-max", digs(rng.choice([M - 1, M - 1, H, H - 1])) + [0] * rng.choice([0, 0, 1, cap])
+    if c == "ovf1":
+        return "w-ovf1", digs(rng.choice([M, M, M + 1, M + r, M * r])) + [0] * rng.choice([0, 0, 3])
+    if c == "lz":
+        return "w-lz", digs(rng.choice([0, 1, M - 1, rng.randrange(M)])) + [0] * rng.choice([cap, cap + 1, 2 * cap])
+    if c == "bad-digit":
+        ds = [rng.randrange(r) for _ in range(rng.choice([1, 3, cap - 1, cap, cap + 3]))]
+        if r < 256:
+            ds[rng.choice([0, len(ds) // 2, len(ds) - 1])] = min(255, r + rng.choice([0, 0, 1, 255 - r]))
+        return "w-bad-digit", ds
+    if c == "limit*r^j":
+        return "w-limit*r^j", digs((M + rng.randrange(0, 9)) * r ** rng.randrange(0, 45) + rng.randrange(0, 6))
+    return "w-random", [rng.randrange(r) for _ in range(rng.choice([cap - 1, cap]) - 1)] + [rng.randrange(1, r)]
+
+
+DIG_CLASSES = ["max", "ovf1", "lz", "bad-digit", "limit*r^j", "random"]
+
+
+# the general (chunked) arm costs the Lean model O(N * digits): ration it on the u8 / u16 digit types at 8192 bits
+GEN_ARM_BUDGET = {"8x1024": {"str": 3, "dig": 2, "oth": 2}, "16x512": {"str": 6, "dig": 4, "oth": 4}}
+
+
+def wide(rng, tier):
+    for cfg in wide_cfgs(tier):
+        w, n = wn(cfg)
+        reps = (2 if tier == "thorough" else 1)
+        huge = w * n > 4096
+        for s in "ui":
+            sg = s == "i"
+            left = {k: v * reps for k, v in GEN_ARM_BUDGET.get(cfg, {"str": 10 ** 9, "dig": 10 ** 9, "oth": 10 ** 9}).items()}
+
+            def general(kind, pool, fallback):
+                if left[kind] > 0:
+                    left[kind] -= 1
+                    return rng.choice(pool)
+                return rng.choice(fallback)
+            for _ in range(reps):
+                # the deciding classes first (they get the general-arm budget), the rest in random order
+                str_classes = STR_CLASSES[:2] + rng.sample(STR_CLASSES[2:], len(STR_CLASSES) - 2)
+                dig_classes = DIG_CLASSES[:2] + rng.sample(DIG_CLASSES[2:], len(DIG_CLASSES) - 2)
+                # from_str_radix: every class on one packing radix and one general radix
+                for i, c in enumerate(str_classes):
+                    rs = (rng.choice(POW2_STR), general('str', GEN_STR, POW2_STR))
+                    if huge and i >= 3:         # 8192 bits: both arms for the deciding classes, alternate for the rest
+                        rs = rs[(i + sg) % 2:][:1]
+                    for r in rs:
+                        t, b = wide_str_case(rng, w, n, sg, r, c)
+                        try:
+                            b.decode()
+                        except UnicodeDecodeError:
+                            yield f"parse_bytes {s}{cfg} {r} {hexs(b)}", t
+                            continue
+                        yield f"from_str_radix {s}{cfg} {r} {hexs(b)}", t
+                # digit slices, both byte orders: every class on one packing radix, one general radix, and 256
+                for i, c in enumerate(dig_classes):
+                    rs = (rng.choice(POW2_DIG), general('dig', GEN_DIG, POW2_DIG), 256)
+                    if huge and i >= 2:
+                        rs = rs[(i + sg) % 3:][:1]
+                    for r in rs:
+                        if r == 256 and (i + sg) % 2 and not huge:
+                            continue
+                        t, ds = wide_digits_case(rng, w, n, r, c)
+                        if rng.random() < 0.5:
+                            yield f"from_radix_be {s}{cfg} {r} {hexs(bytes(reversed(ds)))}", t
+                        else:
+                            yield f"from_radix_le {s}{cfg} {r} {hexs(bytes(ds))}", t
+                # parse_bytes / from_str / str_parse / parse_str_radix: every class once, radix alternating between arms
+                for i, c in enumerate(str_classes):
+                    r = rng.choice(POW2_STR) if (i + sg) % 2 else general('oth', GEN_STR[:4], POW2_STR)
+                    t, b = wide_str_case(rng, w, n, sg, r, c)
+                    yield f"parse_bytes {s}{cfg} {r} {hexs(b)}", t
+                for c in rng.sample(STR_CLASSES, 3 if left['oth'] > 2 else 1):
+                    t, b = wide_str_case(rng, w, n, sg, 10, c)
+                    try:
+                        b.decode()
+                        yield f"{rng.choice(['from_str', 'str_parse'])} {s}{cfg} {hexs(b)}", t
+                    except UnicodeDecodeError:
+                        pass
+                c = rng.choice(["max", "ovf1", "lz", "invalid"])
+                r = general('oth', GEN_STR[:2], POW2_STR) if rng.random() < 0.5 else rng.choice(POW2_STR)
+                t, b = wide_str_case(rng, w, n, sg, r, c)
+                yield f"parse_str_radix {s}{cfg} {r} {hexs(b)}", t
+                # invalid UTF-8 inside a long numeral
+                r = rng.choice([2, 4, 16])
+                t, b = wide_str_case(rng, w, n, sg, r, "random")
+                k = rng.choice([0, len(b) // 2, len(b)])
+                yield f"parse_bytes {s}{cfg} {r} {hexs(b[:k] + rng.choice(BAD_UTF8) + b[k:])}", "w-bad-utf8"
+            yield from bad_radix(rng, w, n, s, cfg, 3, 2)
 
 
 def length_sweep(rng, tier):
@@ -180,6 +464,7 @@ def length_sweep(rng, tier):
 def gen(rng, tier):
     yield from _gen_main(rng, tier)
     yield from length_sweep(rng, tier)
+    yield from wide(rng, tier)
     if tier == "thorough":
         yield from _ws.parse_print(rng)
     yield from _prim.utf8(rng, tier)
